@@ -267,9 +267,62 @@ pub struct SetCase {
     pub cap: usize,
     /// how many extra next() calls after the end
     pub extra: u8,
+    /// what happens on the reader before the owned-record iterator is created:
+    /// (kind, k, j): 0 = nothing; 1 = k next() calls; 2 = read_record_set_exact(k); 3 = k next() calls, then seek
+    /// back to the position of the j-th of them
+    #[serde(default)]
+    pub pre: (u8, u8, u8),
+    /// steps on the iterator: (false, _) = next(), (true, k) = nth(k)
+    #[serde(default)]
+    pub steps: Vec<(bool, u8)>,
+    /// the rest is consumed through skip(a).step_by(b + 1)
+    #[serde(default)]
+    pub tail: (u8, u8),
 }
 
 pub struct OtherIterators;
+
+/// The items an owned-record iterator must yield: records (flat) then at most one error.
+#[derive(Clone, Debug, PartialEq, Eq)]
+enum Item {
+    Rec(Vec<u8>, Vec<u8>, Option<Vec<u8>>),
+    Err,
+}
+
+/// Drives an iterator with next() / nth(k) steps and then skip(a).step_by(b+1), comparing every returned item and
+/// the size hint after every step with the expected item list.
+fn drive<I: Iterator>(what: &str, mut it: I, exp: &[Item], steps: &[(bool, u8)], tail: (u8, u8), conv: &dyn Fn(I::Item) -> Item) -> CheckResult {
+    let mut pos = 0usize;
+    check_hint(what, 0, it.size_hint(), None, exp.len())?;
+    for (si, (is_nth, k)) in steps.iter().enumerate() {
+        let (got, want) = if *is_nth {
+            let k = *k as usize;
+            let w = exp.get(pos + k).cloned();
+            pos = (pos + k + 1).min(exp.len());
+            (it.nth(k).map(conv), w)
+        } else {
+            let w = exp.get(pos).cloned();
+            pos = (pos + 1).min(exp.len());
+            (it.next().map(conv), w)
+        };
+        ensure!(
+            got == want,
+            format!("{}/{}-item", what, if *is_nth { "nth" } else { "next" }),
+            "step {} ({}): returned {:?}, the item sequence {:?} requires {:?}",
+            si,
+            if *is_nth { format!("nth({})", k) } else { "next()".to_string() },
+            got,
+            exp,
+            want
+        );
+        check_hint(what, si + 1, it.size_hint(), None, exp.len() - pos)?;
+    }
+    let (a, b) = (tail.0 as usize, tail.1 as usize + 1);
+    let rest: Vec<Item> = it.skip(a).step_by(b).map(conv).collect();
+    let want: Vec<Item> = exp[pos..].iter().skip(a).step_by(b).cloned().collect();
+    ensure!(rest == want, format!("{}/skip-step_by", what), "after {} steps: skip({}).step_by({}) yields {:?}, the item sequence {:?} (from index {}) requires {:?}", steps.len(), a, b, rest, exp, pos, want);
+    Ok(())
+}
 
 fn walk<I: Iterator>(what: &str, mut it: I, n: usize, extra: usize) -> CheckResult {
     check_hint(what, 0, it.size_hint(), None, n)?;
@@ -297,7 +350,9 @@ impl Prop for OtherIterators {
                 Format::Fasta => gen::fasta_doc_with(6, 4),
                 Format::Fastq => gen::fastq_doc_with(6, false),
             };
-            (input, 3usize..200, 0u8..4).prop_map(move |(input, cap, extra)| SetCase { format: f, input, cap, extra })
+            let pre = prop_oneof![2 => Just((0u8, 0u8, 0u8)), 1 => (1u8..4, 0u8..7, 0u8..7)];
+            let steps = vec((prop::bool::weighted(0.4), prop_oneof![4 => 0u8..3, 1 => 3u8..9]), 0..8);
+            (input, 3usize..200, 0u8..4, pre, steps, (0u8..4, 0u8..3)).prop_map(move |(input, cap, extra, pre, steps, tail)| SetCase { format: f, input, cap, extra, pre, steps, tail })
         };
         boxed(prop_oneof![per(Format::Fasta), per(Format::Fastq)])
     }
@@ -311,6 +366,75 @@ impl Prop for OtherIterators {
         // group makes the count unknown -> only the fused behaviour is checked then
         let known = !matches!(m.term, crate::model::Terminal::Unspecified);
         let n_items = m.recs.len() + if matches!(m.term, crate::model::Terminal::Err(_)) { 1 } else { 0 };
+        if known {
+            let mut exp: Vec<Item> = m.recs.iter().map(|r| { let f = crate::driver::flat(&r.rec); Item::Rec(f.head.0.clone(), f.lines.iter().flat_map(|l| l.0.clone()).collect(), f.qual.as_ref().map(|q| q.0.clone())) }).collect();
+            if matches!(m.term, crate::model::Terminal::Err(_)) {
+                exp.push(Item::Err);
+            }
+            macro_rules! driven {
+                ($modname:ident, $name:expr, $pos:expr, $conv:expr) => {{
+                    use $modname::Record;
+                    for into in [false, true] {
+                        let mut rdr = $modname::Reader::with_capacity(std::io::Cursor::new(&c.input[..]), c.cap);
+                        // the prefix consumes only records (never the terminal error)
+                        let k = (c.pre.1 as usize).min(m.recs.len());
+                        let mut start = 0usize;
+                        match c.pre.0 {
+                            1 | 3 if k > 0 => {
+                                let mut positions = Vec::new();
+                                for i in 0..k {
+                                    match rdr.next() {
+                                        Some(Ok(r)) => {
+                                            let _ = r.head();
+                                        }
+                                        _ => fail!(format!("{}/prefix", $name), "record {} could not be read", i),
+                                    }
+                                    positions.push($pos(&rdr));
+                                }
+                                start = k;
+                                if c.pre.0 == 3 {
+                                    let j = (c.pre.2 as usize) % k;
+                                    ensure!(rdr.seek(&positions[j]).is_ok(), format!("{}/prefix", $name), "seek to record {} failed", j);
+                                    start = j;
+                                    ctx.class("owned iterator created right after a seek");
+                                } else {
+                                    ctx.class("owned iterator created after next() calls");
+                                }
+                            }
+                            2 if k > 0 => {
+                                let mut set = $modname::RecordSet::default();
+                                match rdr.read_record_set_exact(&mut set, Some(k)) {
+                                    Some(Ok(())) => {}
+                                    _ => fail!(format!("{}/prefix", $name), "read_record_set_exact({}) failed", k),
+                                }
+                                ensure!(set.len() == k, format!("{}/prefix", $name), "read_record_set_exact({}) delivered {} records", k, set.len());
+                                start = k;
+                                ctx.class("owned iterator created right after read_record_set_exact(n)");
+                            }
+                            _ => {}
+                        }
+                        if c.steps.iter().any(|s| s.0) {
+                            ctx.class("nth() on an owned / record-set iterator");
+                        }
+                        if into {
+                            drive(concat!($name, "/RecordsIntoIter"), rdr.into_records(), &exp[start..], &c.steps, c.tail, &$conv)?;
+                        } else {
+                            drive(concat!($name, "/RecordsIter"), rdr.records(), &exp[start..], &c.steps, c.tail, &$conv)?;
+                        }
+                    }
+                }};
+            }
+            match c.format {
+                Format::Fasta => driven!(fasta, "fasta", |r: &fasta::Reader<std::io::Cursor<&[u8]>>| r.position().cloned().unwrap_or_else(|| fasta::Position::new(0, 0)), |r: Result<fasta::OwnedRecord, fasta::Error>| match r {
+                    Ok(o) => Item::Rec(o.head, o.seq, None),
+                    Err(_) => Item::Err,
+                }),
+                Format::Fastq => driven!(fastq, "fastq", |r: &fastq::Reader<std::io::Cursor<&[u8]>>| r.position().clone(), |r: Result<fastq::OwnedRecord, fastq::Error>| match r {
+                    Ok(o) => Item::Rec(o.head, o.seq, Some(o.qual)),
+                    Err(_) => Item::Err,
+                }),
+            }
+        }
         match c.format {
             Format::Fasta => {
                 // record set iterator
@@ -350,7 +474,7 @@ impl Prop for OtherIterators {
     }
 }
 
-pub const RULE: &str = "sub-check seq-lines: (0..8 sequence lines incl. empty ones, LF/CRLF, step list over {next, next_back, nth(k), nth_back(k)} of length 0..12 continuing past the end, skip count) -> after every step len(), size_hint and the returned item are compared with a Vec model with two indices; adaptor programs enumerate().rev(), rev(), rev().enumerate(), skip(k) (also driven past its end), nth() past the end, step_by, take, rev().skip, zip, enumerate().rev() after partial consumption, count, last are compared with the same adaptors over the model Vec. Exhaustive: all step lists of length <= 8 for 0..=5 lines. Sub-check other-iterators: RecordSetIter, RecordsIter, RecordsIntoIter of both formats walked to the end and beyond: size_hint brackets the truth after every step, None stays None. Non-trivial = >= 2 items and >= 1 step (seq-lines) / >= 2 records (others). Distinct = hash(case).";
+pub const RULE: &str = "sub-check seq-lines: (0..8 sequence lines incl. empty ones, LF/CRLF, step list over {next, next_back, nth(k), nth_back(k)} of length 0..12 continuing past the end, skip count) -> after every step len(), size_hint and the returned item are compared with a Vec model with two indices; adaptor programs enumerate().rev(), rev(), rev().enumerate(), skip(k) (also driven past its end), nth() past the end, step_by, take, rev().skip, zip, enumerate().rev() after partial consumption, count, last are compared with the same adaptors over the model Vec. Exhaustive: all step lists of length <= 8 for 0..=5 lines. Sub-check other-iterators: RecordSetIter, RecordsIter, RecordsIntoIter of both formats walked to the end and beyond: size_hint brackets the truth after every step, None stays None; RecordsIter / RecordsIntoIter additionally created after a reader prefix (k next() calls, read_record_set_exact(k), or next() calls followed by a seek back) and driven by 0..7 steps of next() / nth(k) and then skip(a).step_by(b): every returned item (record contents or the one terminal error) and the size hint after every step are compared with the model's item list. Non-trivial = >= 2 items and >= 1 step (seq-lines) / >= 2 records (others). Distinct = hash(case).";
 
 pub fn run(tier: Tier) -> i32 {
     let mut run = Run::new("C20", tier, "exploration");
